@@ -176,7 +176,8 @@ static void build_ops()
 		for (int b = 0; b < g_N; ++b) {
 			for (int k : { AFTER, BEFORE, SWAP, SWITCH }) g_ops.push_back(OpD{k, a, b, 0});
 			if (a == b) continue;
-			g_ops.push_back(OpD{MOVE, a, b, 0});
+			g_ops.push_back(OpD{MOVE, a, b, 0});   // source passed the natural way: &parent->children, or a local head for roots
+			g_ops.push_back(OpD{MOVE, a, b, 1});   // child list passed through a separate local head variable
 			for (int k : { GADD, NADD, GINS, NINS }) for (int p : POS) g_ops.push_back(OpD{k, a, b, p});
 		}
 	}
@@ -186,7 +187,7 @@ static std::string op_str(const OpD &d)
 	switch (d.k) {
 	case GADD: case NADD: return fmt("%s(first=%s, pos=%d, %s)", kname[d.k], nn(d.a).c_str(), d.pos, nn(d.b).c_str());
 	case GINS: case NINS: return fmt("%s(parent=%s, pos=%d, %s)", kname[d.k], nn(d.a).c_str(), d.pos, nn(d.b).c_str());
-	case MOVE: return fmt("mpt_node_move(&list headed by %s, dst=%s)", nn(d.a).c_str(), nn(d.b).c_str());
+	case MOVE: return fmt("mpt_node_move(&%s headed by %s, dst=%s)", d.pos ? "local copy of parent->children" : "list", nn(d.a).c_str(), nn(d.b).c_str());
 	case AFTER: case BEFORE: return fmt("%s(position=%s, insert=%s)", kname[d.k], nn(d.a).c_str(), nn(d.b).c_str());
 	case SWAP: case SWITCH: return fmt("%s(%s, %s)", kname[d.k], nn(d.a).c_str(), nn(d.b).c_str());
 	default: return fmt("%s(%s)", kname[d.k], nn(d.a).c_str());
@@ -496,6 +497,7 @@ struct HSys {
 			case GADD: case NADD: case GINS: case NINS: if (!F.single(b) || F.anc(b, a)) return false; break;
 			case MOVE: {
 				if (F.index_of(a) != 0 || F.index_of(b) != 0) return false;
+				if (d.pos && F.par[a] < 0) return false;   // for root lists the head is a local variable anyway
 				const std::vector<int> &ra = F.list_of(F.top(a)), &rb = F.list_of(F.top(b));
 				if (&ra == &rb) return false;          // lists must live in different trees
 				break; }
@@ -575,14 +577,19 @@ struct HSys {
 			if (mi.recursive) sig_cls += std::string(sig_cls.empty() ? "" : "+") + "children-merged";
 			if (sig_cls.empty()) sig_cls = "leading-elements-moved";
 			cnt("move:" + sig_cls);
-			mpt::node *handle = pa, **from = spar >= 0 ? &p[spar]->children : &handle;
+			const bool local = spar < 0 || d.pos;
+			cnt(spar < 0 ? "move:root list, local head" : (d.pos ? "move:child list, separate local head" : "move:child list, &parent->children"));
+			if (spar >= 0 && d.pos && (S.empty() || S[0] != a)) cnt("move:child list, separate local head, first element moved");
+			if (spar >= 0 && d.pos) sig_cls += ",separate-head";
+			mpt::node *handle = pa, **from = local ? &handle : &p[spar]->children;
 			size_t ret = 0;
 			sig = guarded([&] { ret = LIB(mpt::mpt_node_move(from, pb)); });
 			if (!sig && !asan_peek()) {
 				// the caller only keeps *from and dst: everything must stay reachable through them
 				int h = idx(*from);
 				if (S.empty() ? h != -1 : h != S[0]) {
-					if (spar < 0) return fail("source-handle", fmt("caller's list pointer is left at %s, the remaining source list is %s", nn(h).c_str(), list_str(S).c_str()));
+					// (for from == &parent->children the link invariants below report it)
+					if (local) return fail("source-handle", fmt("caller's list pointer is left at %s, the remaining source list is %s", nn(h).c_str(), list_str(S).c_str()));
 				}
 				move_ret = (long) ret; move_want = (long) mi.moved;
 			}
@@ -906,6 +913,7 @@ static const char *required[] = {
 	"destroy:linked node (must be refused)", "destroy:subtree", "destroy:leaf", "clear:recursive",
 	"tree_clone:depth>=2 below the cloned level", "list_clone:depth>=2 below the cloned level", "tree_clone:with children", "list_clone:with children",
 	"move:leading-elements-moved", "move:children-reparented", "move:children-merged", "move:later-element-moved", "move:nothing-to-move",
+	"move:root list, local head", "move:child list, separate local head", "move:child list, &parent->children", "move:child list, separate local head, first element moved",
 	"relink:restore below depth 1", "observer:traversals(4 orders x 3 filters per root list)",
 	"parse:into empty root", "parse:merge into populated root" };
 void mc_explore(Run &r, const std::string &job)
